@@ -130,7 +130,7 @@ def main():
             chosen = [[], list(feats), [f for f in default if f in feats]]
             chosen += [[f] for f in feats]
             chosen += [[g for g in feats if g != f] for f in feats]
-            chosen += rng.sample(all_cells, min(40, len(all_cells)))
+            chosen += rng.sample(all_cells, min(150, len(all_cells)))
             uniq = []
             for c in chosen:
                 c = sorted(c)
@@ -229,7 +229,7 @@ def main():
         "coverage": {
             "evaluations": len(results),
             "distinct_nontrivial": distinct_nontrivial,
-            "rule": "cells of the feature power-set (named features + optional dependencies read from each crate's Cargo.toml, verif-hooks excluded), plus cross-crate cells in which features of a dependency crate are enabled next to the dependent crate's own (nexrad-decode with nexrad-model x every non-empty nexrad-model feature set; nexrad-data default/all - thorough: 24 more sampled sets - x nexrad-model and nexrad-decode feature sets; the facade x nexrad-model feature sets); thorough = every cell of every crate, quick = every cell of crates with <= 4 features and, for nexrad-data, {none, all, default, each single, each all-but-one} plus 40 seeded random cells; each cell = `cargo build --offline -p <crate> --no-default-features --features <set>` for the library alone (code generation included: cargo check never reports known-panics lints, post-monomorphization and const-evaluation errors) and `cargo check ... --all-targets` for examples and tests (thorough: `cargo build --all-targets` as well for every eighth cell); non-trivial = a cell that differs from both the empty and the default set",
+            "rule": "cells of the feature power-set (named features + optional dependencies read from each crate's Cargo.toml, verif-hooks excluded), plus cross-crate cells in which features of a dependency crate are enabled next to the dependent crate's own (nexrad-decode with nexrad-model x every non-empty nexrad-model feature set; nexrad-data default/all - thorough: 24 more sampled sets - x nexrad-model and nexrad-decode feature sets; the facade x nexrad-model feature sets); thorough = every cell of every crate, quick = every cell of crates with <= 4 features and, for nexrad-data, {none, all, default, each single, each all-but-one} plus 150 seeded random cells; each cell = `cargo build --offline -p <crate> --no-default-features --features <set>` for the library alone (code generation included: cargo check never reports known-panics lints, post-monomorphization and const-evaluation errors) and `cargo check ... --all-targets` for examples and tests (thorough: `cargo build --all-targets` as well for every eighth cell); non-trivial = a cell that differs from both the empty and the default set",
             "samples": [{"crate": c, "features": f, "result": s} for c, f, s, e in results[:3]] + [{"crate": c, "features": f, "result": s} for c, f, s, e in results[-2:]],
             "exhaustive": exhaustive,
             "feature_space": space,
